@@ -349,7 +349,10 @@ def apply_common_rules(text, ed, rules, log, where):
                 n2 = next_code(toks, n1)
                 if toks[n2].text != ")": continue
                 st = _postfix_start(toks, prev_code(toks, p1))
-                ed.insert(toks[st].start, f"{t.text}_stub(")
+                names_ = _CUR_OPTS.get("les", "").split(",") if _CUR_OPTS.get("les") else []
+                k14 = sum(1 for l_ in log if l_[0] == "R14" and l_[1] == where and "_bytes()" in l_[2])
+                nm_ = names_[k14] if k14 < len(names_) and names_[k14] else f"{t.text}_stub"
+                ed.insert(toks[st].start, f"{nm_}(")
                 ed.replace(toks[p1].start, toks[n2].end, ")")
                 log.append(("R14", where, text[toks[st].start:toks[n2].end]))
     if "R9" in rules:
